@@ -34,6 +34,12 @@ func init() {
 			"the datasource announces exactly the JSON fields the model serialises per __typename; the planner's input keys are the keys Source.Load decodes; the planner's includeDeprecated filter covers every collection whose elements carry isDeprecated and reads the key the model writes. " +
 			"It does not decide the round trip toSDL(fromIntrospection(generate(S))) ~ S nor the engine's answers as values.",
 		Mutants: []Mutant{
+			{Name: "number defaults are read through the sign-dropping accessor (seeded change C17-2)", File: "v2/pkg/introspection/generator.go", Rule: "C17-R15", Key: "introspectionVisitor.EnterInputValueDefinition/partial-value-accessor-under-kind-test",
+				Old: "\t\tprintedValue, err := i.definition.PrintValueBytes(value, nil)\n\t\tif err != nil {\n\t\t\ti.StopWithInternalErr(err)\n\t\t\treturn\n\t\t}\n\t\tprintedStr := unsafebytes.BytesToString(printedValue)\n", New: "\t\tprintedValue, err := i.definition.PrintValueBytes(value, nil)\n\t\tif err != nil {\n\t\t\ti.StopWithInternalErr(err)\n\t\t\treturn\n\t\t}\n\t\tprintedStr := unsafebytes.BytesToString(printedValue)\n\t\tif value.Kind == ast.ValueKindInteger || value.Kind == ast.ValueKindFloat {\n\t\t\tprintedStr = i.definition.ValueContentString(value)\n\t\t}\n"},
+			{Name: "a schema without mutation root loses its subscription root on import (seeded change C17-12)", File: "v2/pkg/ast/ast_root_operation_type_definition.go", Rule: "C17-R18", Key: "Document.ImportRootOperationTypeDefinitions/subscriptionTypeName-imported-or-absent",
+				Old: "\tif mutationTypeName != \"\" {\n\t\trefs = append(refs, d.ImportRootOperationTypeDefinition(mutationTypeName, OperationTypeMutation))\n\t}\n", New: "\tif mutationTypeName == \"\" {\n\t\treturn refs\n\t}\n\trefs = append(refs, d.ImportRootOperationTypeDefinition(mutationTypeName, OperationTypeMutation))\n"},
+			{Name: "the converter re-uses one directive-ref slice for all enum values (seeded change C17-1)", File: "v2/pkg/introspection/converter.go", Rule: "C17-R17", Key: "JsonConverter.importEnum/scratch-slice-does-not-escape:directiveRefs",
+				Old: "\tfor i := range valueRefs {\n\t\tvar directiveRefs []int\n", New: "\tvar directiveRefs []int\n\tfor i := range valueRefs {\n\t\tdirectiveRefs = directiveRefs[:0]\n"},
 			{Name: "deprecation reason read without a kind test (reverts part of the F47 fix)", File: "v2/pkg/introspection/generator.go", Rule: "C17-R15", Key: "introspectionVisitor.deprecationReason/partial-value-accessor-under-kind-test",
 				Old: "\t\tif argValue.Kind != ast.ValueKindString {\n\t\t\treturn nil\n\t\t}\n", New: ""},
 			{Name: "includeDeprecated looked up once per cached plan (seeded change C17-21, without the sync import)", File: "v2/pkg/engine/plan/visitor.go", Rule: "C17-R13", Key: "Visitor.resolveSkipArrayItem/plan-closure-is-stateless",
@@ -237,6 +243,12 @@ func runC17(r *fw.Run) {
 		r.Rule("C17-R16", "in the introspection generator and the value importer the converter uses, the ref of an ast.Value is handed to an accessor of kind K (doc.<K>Value…(v.Ref), doc.<K>Values[v.Ref]) only where v.Kind is known to be K")
 		n := kindRefAgreement(r, "C17-R16", []string{"introspection", "astimport"}, nil)
 		r.Expect("C17-R16", "kind-specific uses of a value's ref", n, 8)
+		c17EveryRootTypeImportedOrAbsent(r)
+		r.Rule("C17-R17", "a scratch slice that a loop of the introspection converter / generator re-uses (v = v[:0] per iteration) is never stored or handed to a retaining parameter inside that loop")
+		nSS := scratchSliceDoesNotEscape(r, "C17-R17", []string{"introspection", "astimport", "ast"})
+		if nSS == 0 {
+			r.Pass("C17-R17", "no-reused-scratch-slices", "", "no loop of the introspection packages re-uses a truncated scratch slice (nothing to decide; the seeded mutant is the positive control)", false)
+		}
 	}()
 	defer c17PlanClosuresAreStateless(r)
 	defer func() {
@@ -2038,4 +2050,106 @@ func c17TemplatePlaceholdersNotInsideStrings(r *fw.Run) {
 		})
 	}
 	r.Expect("C17-R14", "placeholders in the introspection data source's template constants", n, 1)
+}
+
+// c17EveryRootTypeImportedOrAbsent (R18): the converter hands the three root operation type names of the introspected
+// schema to ast.Document.ImportRootOperationTypeDefinitions; each of them is optional and independent of the others
+// (a schema may have a subscription root and no mutation root). At every exit of the importer each name parameter has
+// either been imported (passed to ImportRootOperationTypeDefinition) or is known to be empty — an early return taken
+// because one name is absent must not skip another. One correlated fact per parameter ("settled") carries this through
+// the joins.
+func c17EveryRootTypeImportedOrAbsent(r *fw.Run) {
+	p := r.Prog
+	r.Rule("C17-R18", "at every exit of the root operation type importer each of the optional root type names has been imported or is known to be empty (the three are independent)")
+	n := 0
+	for _, fi := range p.Funcs("ast") {
+		sig := fi.Obj.Type().(*types.Signature)
+		var names []*types.Var
+		for i := 0; i < sig.Params().Len(); i++ {
+			if b, ok := sig.Params().At(i).Type().Underlying().(*types.Basic); ok && b.Kind() == types.String {
+				names = append(names, sig.Params().At(i))
+			}
+		}
+		if len(names) < 2 {
+			continue
+		}
+		info := fi.Info()
+		// the importer: every name parameter is handed (as first argument) to one and the same callee
+		importedBy := map[*types.Var]*types.Func{}
+		fw.WalkAll(fi.Decl.Body, func(nd ast.Node) bool {
+			if c, ok := nd.(*ast.CallExpr); ok && len(c.Args) >= 1 {
+				if id, isID := ast.Unparen(c.Args[0]).(*ast.Ident); isID {
+					for _, pv := range names {
+						if info.Uses[id] == pv {
+							importedBy[pv] = fw.Callee(info, c)
+						}
+					}
+				}
+			}
+			return true
+		})
+		var callee *types.Func
+		same := len(importedBy) == len(names)
+		for _, fn := range importedBy {
+			if fn == nil || (callee != nil && fn != callee) {
+				same = false
+			}
+			callee = fn
+		}
+		if !same || callee == nil || callee.Name() != "ImportRootOperationTypeDefinition" {
+			continue
+		}
+		in := fw.NewInterp(fi)
+		in.H = fw.Hooks{
+			Cond: func(e ast.Expr, branch bool, st *fw.State) {
+				op, leaves := fw.NNF(info, e, branch)
+				if op != "atom" && op != "and" {
+					return
+				}
+				for _, a := range leaves {
+					for _, pv := range names {
+						x, isX := ast.Unparen(a.X).(*ast.Ident)
+						if !isX || info.Uses[x] != pv {
+							continue
+						}
+						if a.Kind == "Empty" {
+							st.Set("settled:" + pv.Name())
+						}
+						if a.Kind == "Eq" {
+							if v, isConst := fw.ConstVal(info, a.Y); isConst && (v == `""` || v == "") {
+								st.Set("settled:" + pv.Name())
+							}
+						}
+					}
+				}
+			},
+			Node: func(nd ast.Node, st *fw.State) {
+				if c, ok := nd.(*ast.CallExpr); ok && fw.Callee(info, c) == callee && len(c.Args) >= 1 {
+					if id, isID := ast.Unparen(c.Args[0]).(*ast.Ident); isID {
+						for _, pv := range names {
+							if info.Uses[id] == pv {
+								st.Set("settled:" + pv.Name())
+							}
+						}
+					}
+				}
+			},
+			Exit: func(ret *ast.ReturnStmt, lit *ast.FuncLit, st *fw.State) {
+				if lit != nil || !in.Final() {
+					return
+				}
+				for _, pv := range names {
+					n++
+					pos := fi.Decl.End()
+					if ret != nil {
+						pos = ret.Pos()
+					}
+					r.Check(st.Must("settled:"+pv.Name()), "C17-R18", fi.Name()+"/"+pv.Name()+"-imported-or-absent", p.Pos(pos), "at this exit of "+fi.Name()+" the root type name "+pv.Name()+" has been imported or is known to be empty",
+						fi.Name()+" can return without importing "+pv.Name()+" although it may be set (an early return for another absent name skips it): a schema with a subscription root and no mutation root loses its subscription root in the introspection round trip")
+				}
+			},
+		}
+		in.Run(nil)
+	}
+	r.Expect("C17-R18", "exits × root type names of the root operation type importer", n, 3)
 }
